@@ -199,6 +199,33 @@ def gen_grid_case(rng, max_cells, n_dim=None, big=False, desc=None):
             "lim_form": g["lim_form"], "dl_form": g["dl_form"]}
 
 
+def gen_int_grid_case(rng, max_cells):
+    """limits and (some) deltas as Python / NumPy integers: np.arange then yields an integer grid for those axes"""
+    n = rng.choice([2, 2, 3])
+    desc = M.gen_model_desc(rng, n)
+    model = M.build_model(desc)
+    alpha = float(10 ** rng.uniform(-4, math.log10(0.3)))
+    ups = M.typical_upper(model, desc, min(1 - 1e-10, 1 - alpha / 30.0))
+    per = max(6, int(max_cells ** (1.0 / n)))
+    lims, dls = [], []
+    for d in range(n):
+        hi = max(4, int(math.ceil(ups[d])))
+        lo = -4 if desc["dims"][d]["family"] == "vonmises" else 0
+        if desc["dims"][d]["family"] == "vonmises":
+            hi = 4
+        step = max(1, int(math.ceil((hi - lo) / per)))
+        if rng.random() < 0.35:
+            step = float(step) * rng.choice([0.5, 1.0])       # a float axis next to integer axes
+        lims.append([lo, hi])
+        dls.append(step)
+    deltas = dls
+    dl_form = rng.choice(["asis", "tuple", "npint"])
+    if len(set(dls)) == 1 and isinstance(dls[0], int) and rng.random() < 0.5:
+        deltas, dl_form = dls[0], rng.choice(["asis", "npint"])
+    return {"kind": "grid", "desc": desc, "alpha": alpha, "limits": lims, "deltas": deltas,
+            "lim_form": rng.choice(["tuples", "lists", "ndarray"]), "dl_form": dl_form}
+
+
 def gen_default_case(rng, what):
     """default limits and / or default deltas (2-D; alpha large enough for the Monte-Carlo default limits)"""
     desc = M.gen_model_desc(rng, 3 if what == "limits3" else 2)
@@ -218,8 +245,60 @@ def gen_default_case(rng, what):
     return c
 
 
+TWEAK = {"weibull": ("alpha", 1.35), "lognormal": ("sigma", 1.5), "expweibull": ("alpha", 1.35), "normal": ("sigma", 1.4)}
+
+
+def gen_history_case(rng, max_cells, what):
+    """a contour, then the SAME model object gets other parameters (attribute assignment / a second fit), then a contour on
+    the same explicit grid: the second contour must be the contour of the CURRENT model"""
+    if what == "refit":
+        name = rng.choice(["get_DNVGL_Hs_Tz", "get_OMAE2020_Hs_Tz"])
+        first, second = rng.sample(["ec-benchmark_dataset_A_1year.txt", "ec-benchmark_dataset_B_1year.txt", "ec-benchmark_dataset_C_1year.txt"], 2)
+        c = gen_grid_case(rng, max_cells, desc=M.predefined_desc(name))
+        c["prior"] = {"type": "refit", "name": name, "first": first, "second": second}
+        return c
+    while True:
+        desc = M.gen_model_desc(rng, rng.choice([2, 2, 3]))
+        if desc["dims"][0]["family"] in TWEAK:
+            break
+    c = gen_grid_case(rng, max_cells, desc=desc)
+    par, fac = TWEAK[desc["dims"][0]["family"]]
+    c["prior"] = {"type": "params", "set": {par: float(desc["dims"][0]["params"][par] / fac)}, "alpha": gen_alpha(rng)}
+    return c
+
+
+def build_with_history(c):
+    """the model object as it is when the judged contour is computed (runs the earlier contour of the history first)"""
+    import virocon as vc
+    pr = c.get("prior")
+    if pr is None:
+        return M.build_model(c["desc"])
+    lim, dl = M.apply_forms(c["limits"], c["deltas"], c.get("lim_form", "tuples"), c.get("dl_form", "asis"))
+    with warnings.catch_warnings():
+        warnings.simplefilter("ignore")
+        if pr["type"] == "refit":
+            model = M.fit_predefined_fresh(pr["name"], pr["first"])
+            try:
+                vc.HighestDensityContour(model, c["alpha"], lim, dl)
+            except Exception:  # noqa
+                pass
+            M.refit_predefined(model, pr["name"], pr["second"])
+        else:
+            model = M.build_model(c["desc"])
+            final = {k: getattr(model.distributions[0], k) for k in pr["set"]}
+            for k, v in pr["set"].items():           # the earlier state of the same object
+                setattr(model.distributions[0], k, v)
+            try:
+                vc.HighestDensityContour(model, pr.get("alpha", c["alpha"]), lim, dl)
+            except Exception:  # noqa
+                pass
+            for k, v in final.items():               # parameter change by attribute assignment
+                setattr(model.distributions[0], k, v)
+    return model
+
+
 def run_grid(c):
-    model = M.build_model(c["desc"])
+    model = build_with_history(c)
     if c.get("np_seed") is not None:
         np.random.seed(c["np_seed"])
     out = M.run_hdc(model, c["alpha"], c["limits"], c["deltas"], c.get("lim_form", "tuples"), c.get("dl_form", "asis"))
@@ -539,6 +618,15 @@ def run(ctx):
             cases_b.append(c)
             outs_b.append(run_grid(c))
     # 4-D models on small grids, the error branches (alpha near 1: IndexError; nan in the joint pdf: ValueError)
+    # integer limits / deltas (integer np.arange grids), histories on one model object (parameter change, second fit)
+    for rep in range(ctx.n(5, 30)):
+        c = gen_int_grid_case(rng, max_cells)
+        cases_b.append(c)
+        outs_b.append(run_grid(c))
+    for what in ["params", "params", "refit"] * ctx.n(1, 5):
+        c = gen_history_case(rng, max_cells, what)
+        cases_b.append(c)
+        outs_b.append(run_grid(c))
     for rep in range(ctx.n(3, 20)):
         c = gen_grid_case(rng, max_cells, n_dim=4)
         cases_b.append(c)
@@ -564,6 +652,8 @@ def run(ctx):
         dist[key] = dist.get(key, 0) + 1
         nt = "contour" in o and not o["warned"]
         ctx.count(("grid", repr(c["desc"]), c["alpha"], repr(c["limits"]), repr(c["deltas"])), nt)
+        if c.get("prior"):
+            dist["history/" + c["prior"]["type"]] = dist.get("history/" + c["prior"]["type"], 0) + 1
         if c["desc"].get("predefined"):
             dist["predefined/" + c["desc"]["predefined"]] = dist.get("predefined/" + c["desc"]["predefined"], 0) + 1
         fk = "forms/limits:%s deltas:%s" % (c.get("lim_form", "tuples") if c["limits"] is not None else "None",
